@@ -161,10 +161,46 @@ def run(prog, rep):
             rep.violation('R2', loc(mod, where_node), owner, f'{name}: pattern does not compile',
                           f'the {name} pattern does not compile: {e}')
             return
+        for lo_, hi_ in odd_ranges(pat):
+            rep.violation('R2', loc(mod, where_node), owner, f'{name}: character range {chr(lo_)!r}-{chr(hi_)!r}',
+                          f'the {name} pattern {pat!r} contains the character range {chr(lo_)!r}-{chr(hi_)!r} (an unescaped "-" between two '
+                          f'punctuation characters): it also admits {"".join(chr(c_) for c_ in range(lo_ + 1, hi_))!r}, characters the format does not list')
         if example is not None and isinstance(example, str) and ' ' not in example and re.fullmatch(r'[\w:./\-]+', example):
             if re.fullmatch(pat, example) is None:
                 rep.violation('R2', loc(mod, where_node), owner, f'{name}: documented example does not match',
                               f'the documented example {example!r} of {name} does not match its own pattern {pat!r}')
+
+    def odd_ranges(pat):
+        """character ranges of the pattern whose end points are not both digits / both lower case / both upper case letters"""
+        import re._parser as sre_parse
+        import re._constants as sre_c
+        try:
+            tree = sre_parse.parse(pat)
+        except re.error:
+            return []
+        out = []
+
+        def kind(c):
+            ch = chr(c)
+            return 'd' if ch.isdigit() else 'l' if ch.islower() else 'u' if ch.isupper() else None
+
+        def walk(items):
+            for op, av in items:
+                if op is sre_c.IN:
+                    for o2, a2 in av:
+                        if o2 is sre_c.RANGE:
+                            lo, hi = a2
+                            if kind(lo) is None or kind(lo) != kind(hi):
+                                out.append((lo, hi))
+                elif op in (sre_c.MAX_REPEAT, sre_c.MIN_REPEAT):
+                    walk(av[2])
+                elif op is sre_c.SUBPATTERN:
+                    walk(av[3])
+                elif op is sre_c.BRANCH:
+                    for b_ in av[1]:
+                        walk(b_)
+        walk(tree)
+        return out
 
     def unicode_digits(pat):
         """does the pattern use the category \\d (str patterns without re.ASCII: every Unicode decimal digit)?"""
@@ -738,6 +774,45 @@ def run(prog, rep):
     if not bouts or not all(any(implies_bound(n) for n in o.cond_nodes) for o in bouts):
         rep.violation('R5', loc(base.module, sb0), 'BaseSliver.set_boot_script', 'size assertion missing or after the store',
                       'set_boot_script no longer asserts the script length before storing it')
+
+
+def check_size_tests_agree(prog, rep, rule):
+    """The size tests of the JSON blob constructor (text branch, object branch) agree on where the limit lies: what one branch
+    accepts and encodes, the other accepts when it is handed that text. Shared with C03 (decode(encode(x)) is accepted)."""
+    jd_ = prog.cls(JSONDATA)
+    ji_ = jd_.methods.get('__init__')
+    if ji_ is None:
+        raise AnalysisError('JSONData.__init__ vanished')
+    ji_ = inline(prog, jd_, ji_)
+    env_ = local_env(ji_)
+    ops = []
+    for t in ast.walk(ji_):
+        if not isinstance(t, ast.If) or not any(isinstance(x, ast.Raise) for x in ast.walk(t)):
+            continue
+        for cj in conjuncts(canon(expand(t.test, env_))):
+            if isinstance(cj, ast.Compare) and len(cj.ops) == 1 and isinstance(cj.ops[0], (ast.Lt, ast.LtE, ast.Gt, ast.GtE)):
+                l, r = cj.left, cj.comparators[0]
+                has_max = lambda e: any(isinstance(x, ast.Attribute) and x.attr == 'MAX_SIZE' for x in ast.walk(e))
+                has_len = lambda e: any(isinstance(x, ast.Call) and isinstance(x.func, ast.Name) and x.func.id == 'len' for x in ast.walk(e))
+                if has_max(l) and has_len(r):
+                    strict = isinstance(cj.ops[0], ast.Lt)            # MAX < len  : a length equal to the limit is accepted
+                    nonstrict = isinstance(cj.ops[0], ast.LtE)
+                elif has_len(l) and has_max(r):
+                    strict = isinstance(cj.ops[0], ast.Gt)
+                    nonstrict = isinstance(cj.ops[0], ast.GtE)
+                else:
+                    continue
+                if strict or nonstrict:
+                    ops.append((t, 'rejects above the limit' if strict else 'rejects at the limit'))
+    kinds = sorted({k for _, k in ops})
+    rep.instance(rule, f'JSONData.__init__: {len(ops)} size test(s): {kinds}')
+    if len(ops) < 2:
+        raise AnalysisError('JSONData.__init__: the two size tests were not recognised')
+    if len(kinds) > 1:
+        odd = [t for t, k in ops if k == 'rejects at the limit']
+        rep.violation(rule, loc(jd_.module, odd[0]), 'JSONData.__init__', f'size tests disagree: {norm(odd[0].test, 60)} rejects a length equal to the limit',
+                      'one branch of the constructor rejects a text whose length equals MAX_SIZE while another accepts it: a value accepted '
+                      'as an object and encoded to exactly MAX_SIZE characters is rejected when that encoding is decoded again')
 
 
 def _stmt_ancestors(node, fn):
